@@ -87,10 +87,17 @@ void *
 coap_realloc_type(coap_memory_tag_t type, void *p, size_t size) {
   (void)type;
   if (env_fail_now()) return NULL;
-#ifdef VERIF_REPLAY
-  return realloc(p, size);
+#if defined(VERIF_REPLAY) || !defined(ENV_REALLOC_BYTELOOP)
+  {
+    void *q = realloc(p, size);
+#ifndef VERIF_REPLAY
+    __CPROVER_assume(q != NULL);
+    env_alloc_note(q, size);
+#endif
+    return q;
+  }
 #else
-  /* CBMC's realloc model copies with __CPROVER_array_copy, which loses byte-level (field-sensitive) knowledge of
+  /* (concrete-layout jobs only, -DENV_REALLOC_BYTELOOP) CBMC's realloc model copies with __CPROVER_array_copy, which loses byte-level (field-sensitive) knowledge of
    * the buffer; an explicit malloc + byte copy + free keeps concrete header bytes concrete */
   void *q = malloc(size);
   __CPROVER_assume(q != NULL);
